@@ -1,17 +1,19 @@
 """C20 - background workers obey stop/graceful under every thread interleaving.
 
-Models: lean/CpModel/Monitor.lean (M), BlockWait.lean (B), ThreadMgr.lean (T); theorems:
-lean/CpProofs/C20*.lean; driver: lean/Drv/C20.lean.  Real code: REAL threads running the real
-`BackgroundTask/Monitor/ThreadManager/Bus` code under the deterministic replay scheduler
-`harness/c20_sched.py` (baton passing at `sys.settrace` line events of the anchored functions;
-`plugins.time`/`wspbus.time` replaced by a logical clock; `Thread.start/join` instrumented).  A
-case is a scenario + a schedule (list of thread ids); after every step the shared state of the real
-objects is compared with the Lean model's snapshot, and an oracle written from the property
-statement is evaluated on the journal of callback invocations / publications.
+Models: lean/CpModel/Monitor.lean (M), BlockWait.lean (B), ThreadMgr.lean (T), C20Admit.lean (trace
+inclusion); theorems: lean/CpProofs/C20*.lean; driver: lean/Drv/C20.lean.  Real code: REAL threads
+running the real `BackgroundTask/Monitor/ThreadManager/Bus` code under the deterministic replay
+scheduler `harness/c20_sched.py`.  Yield points are SHARED-STATE ACCESSES AND PRIMITIVE CALLS (data
+descriptors on the live classes, a dict proxy, module-global shims for `time`/`threading`/`os`),
+never source lines.  A case is a scenario + a schedule (list of thread ids).  After every effective
+turn the observable shared state of the real objects is recorded; the Lean driver decides whether
+the model ADMITS that trace (subset construction over model states, model steps that do not change
+the observation are stuttering steps); an oracle written from the property statement is evaluated
+on the journal of callback invocations / publications.
 """
-import itertools
 import json
 import os
+import sys
 import threading
 
 from . import common
@@ -41,65 +43,58 @@ THEOREMS = [
     'CpProofs.C20.C20_thread_notifications_quiescent',
     'CpProofs.C20.C20_thread_notifications_partial',
     'CpProofs.C20.C20_thread_notifications_asIs_false',
+    'CpProofs.C20.C20_admitted_trace_is_model_run',
+    'CpProofs.C20.C20_admitted_M_safe',
+    'CpProofs.C20.C20_admitted_B_safe',
+    'CpProofs.C20.C20_admitted_T_safe',
 ]
 LEVEL = 'proof'
-TECHNIQUE = ('Lean 4 proof: inductive invariants over the step relation of line-granular interleaving models '
-             '(all schedules, all call sequences, any number of threads); models tied to the real threads by '
-             'deterministic schedule replay with per-step snapshot comparison')
-LEVEL_TEXT = ('proof (partial). Proved in Lean, for EVERY schedule, every controller call sequence and any number of '
-              'threads, over line-granular interleaving models of the repaired code: at most one armed worker per '
-              'monitor; once stop() has returned the cancelled worker invokes the callback at most once more and then '
-              'never again; start/graceful leave exactly one armed live worker and stop none; stop() joins a non-daemon '
-              'worker; EXITING is stable, block() returns within 5 own steps of the main thread once the bus is EXITING, '
-              'never earlier, and execv happens iff restart() was called; start_thread/stop_thread obey a conservation '
-              'law that gives exactly one stop_thread per start_thread at quiescence and stop() never raises. The '
-              'pre-fix protocols (worker arms itself; stop() iterates the live dict) are proved FALSE by witness '
-              'schedules and true under explicit side conditions. Partial: the theorems are about the models; the real '
-              'code is tied to them by replaying generated schedules on real threads (snapshots compared after every '
-              'step) - bytecode atomicity, real-time sleeping, join of foreign threads in block(), execv and raising '
-              'callbacks are outside the models.')
-LEVEL_NOTE = ('Trusted: Lean kernel (propext, Classical.choice, Quot.sound only); the hand models CpModel/Monitor.lean, '
-              'BlockWait.lean, ThreadMgr.lean as validated on this run by per-step comparison with real threads under '
-              'harness/c20_sched.py; CPython switching threads only between bytecodes with atomic attribute/dict '
-              'operations; line granularity = at most one shared access per traced line; controller calls on one '
-              'monitor do not overlap; callbacks and listeners do not raise.')
+TECHNIQUE = ('Lean 4 proof: inductive invariants over the step relation of interleaving models (all schedules, all '
+             'call sequences, any number of threads); models tied to the real threads by deterministic schedule '
+             'replay at shared-state accesses and trace inclusion modulo stuttering (subset construction, proved sound)')
+LEVEL_TEXT = ''     # set at the end of the module
+LEVEL_NOTE = ''
 TRUSTED_BASE = [
     'CPython: threads are switched only between bytecodes; attribute load/store and single dict operations '
     '(in, len, d[k]=v, pop, clear, list(d), one next() of an iterator) are atomic',
-    'line granularity: every traced line of the anchored functions performs at most one access to the shared '
-    'variables of the model, so pre-empting at line boundaries exhibits all interleavings of shared accesses',
+    'the shared variables of the anchored code are the instrumented ones (BackgroundTask.running, Monitor.thread, '
+    'Bus.state, Bus.execv, ThreadManager.threads) and the primitive calls go through the shimmed module globals; '
+    'code between two such accesses is thread-local, so pre-empting at accesses exhibits all interleavings',
     'time.sleep is a logical no-op (real-time behaviour is not modelled); os._exit/execv/atexit are recorded, '
-    'not executed',
+    'not executed; threading.enumerate() inside wspbus returns the threads the scenario declares',
 ]
 ASSUMPTIONS = [
     'Monitor.start/stop/graceful calls do not overlap each other (any thread may issue them, one at a time); they '
     'interleave freely with every worker',
-    'the monitor callback and the bus listeners do not raise',
+    'bus listeners do not raise (C18 covers publish)',
     'exit()/restart() is the last bus call of the second thread; no third thread changes the bus state',
 ]
-RULE = ('scenario (M: controller call sequence x frequency x daemon; B: second-thread call sequence; T: request '
-        'thread scripts x number of stop() calls) x schedule (systematic single/double pre-emption points, '
-        'model-derived witness schedules, random); non-trivial = at least two threads took a step; distinct = '
-        'distinct (scenario, schedule) line')
+RULE = ('scenario (M: controller call sequence x frequency x daemon x raising callback; B: second-thread call sequence '
+        'x foreign threads; T: request thread scripts x number of stop() calls) x schedule over shared-state accesses '
+        '(systematic single/double pre-emption points, model-derived witness schedules, random); non-trivial = at '
+        'least two threads took a step; distinct = distinct (scenario, schedule)')
 
 PROCS = min(int(os.environ.get('C20_PROCS', '8')), os.cpu_count() or 2)
+COV_TOOL = 3
 
 
 class _Clock:
-    """`plugins.time` / `wspbus.time`: sleeping takes no real time."""
+    """`plugins.time` / `wspbus.time`: sleeping takes no real time, it is a yield point."""
 
-    def __init__(self):
+    def __init__(self, real):
+        self._real = real
         self.sleeps = 0
-        self.dead = False
 
     def sleep(self, _interval):
-        if self.dead:
-            raise SystemExit(S.KILL)    # tear-down of bytecode-granular runs (see c20_sched.kill_all)
+        S.ypoint(('sleep',))
         self.sleeps += 1
 
     @staticmethod
     def time():
         return 0.0
+
+    def __getattr__(self, name):
+        return getattr(self._real, name)
 
 
 class _ProcExit(BaseException):
@@ -115,6 +110,7 @@ class _OsShim:
 
     @staticmethod
     def _exit(code):
+        S.ypoint(('os._exit',))
         raise _ProcExit(code)
 
 
@@ -124,49 +120,164 @@ class _FakeAtexit:
         return None
 
 
-def _label(rec, crashed=None):
-    if rec.done:
-        if rec.exc is not None and crashed:
-            return crashed(rec.exc)
-        return 'done'
-    lab = '%s+%d' % rec.at
-    if rec.blocked_on is not None:
-        lab += '!'
-    return lab
-
-
 def _plugins():
     from cherrypy.process import plugins, wspbus
     return plugins, wspbus
 
 
+def _funcs(cls, names=None, skip=()):
+    out = []
+    for k, v in cls.__dict__.items():
+        f = v.__func__ if isinstance(v, (staticmethod, classmethod)) else v
+        code = getattr(f, '__code__', None)
+        if code is None or k in skip:
+            continue
+        if names is None or k in names or (k.startswith('_') and not k.startswith('__')):
+            out.append(code)
+    return out
+
+
+BUS_SKIP = ('publish', 'log', 'subscribe', 'unsubscribe', '_clean_exit', '_do_execv', '_get_true_argv',
+            '_get_interpreter_argv', '_extend_pythonpath', '_set_cloexec', 'start_with_callback', '__init__')
+
+
+def anchored_codes():
+    """The code objects the property is anchored in (public entry points by name + private helpers of the
+    same classes, so that an extracted helper stays inside)."""
+    plugins, wspbus = _plugins()
+    m = _funcs(plugins.BackgroundTask, ('run', 'cancel', 'start'))
+    m += _funcs(plugins.Monitor, ('start', 'stop', 'graceful'))
+    m += _funcs(plugins.Autoreloader, ('start',), skip=('_archive_for_zip_module', '_file_for_file_module',
+                                                        '_file_for_module', '_make_absolute'))
+    t = _funcs(plugins.ThreadManager, ('acquire_thread', 'release_thread', 'stop'))
+    b = _funcs(wspbus.Bus, ('wait', 'block', 'exit', 'restart', 'stop', 'start', 'graceful'), skip=BUS_SKIP)
+    return {'M': m, 'T': t, 'B': b}
+
+
+# ---- line coverage of the anchored functions (informational) ------------------------------------
+_cov = {'on': False, 'seen': set()}
+
+
+def _all_codes(code):
+    yield code
+    for c in code.co_consts:
+        if hasattr(c, 'co_code'):
+            for x in _all_codes(c):
+                yield x
+
+
+def coverage_on():
+    if _cov['on']:
+        return
+    mon = sys.monitoring
+    try:
+        mon.use_tool_id(COV_TOOL, 'c20_cov')
+    except ValueError:
+        return
+
+    def on_line(code, line):
+        _cov['seen'].add((code.co_qualname, line - code.co_firstlineno))
+        return mon.DISABLE
+    mon.register_callback(COV_TOOL, mon.events.LINE, on_line)
+    for codes in anchored_codes().values():
+        for code in codes:
+            for c in _all_codes(code):
+                mon.set_local_events(COV_TOOL, c, mon.events.LINE)
+    _cov['on'] = True
+
+
+def coverage_all_lines():
+    out = set()
+    for codes in anchored_codes().values():
+        for code in codes:
+            for c in _all_codes(code):
+                doc_end = c.co_firstlineno
+                for _s, _e, ln in c.co_lines():
+                    if ln is not None and ln > doc_end:
+                        out.add((c.co_qualname, ln - c.co_firstlineno))
+    return out
+
+
 # ----------------------------------------------------------------------------------------------
 # M: Monitor / BackgroundTask
 # ----------------------------------------------------------------------------------------------
-def _bt_codes(plugins):
-    BT = plugins.BackgroundTask
-    codes = [BT.run.__code__, BT.cancel.__code__]
-    if 'start' in BT.__dict__:
-        codes.append(BT.__dict__['start'].__code__)
-    for k in ('start', 'stop', 'graceful'):
-        codes.append(getattr(plugins.Monitor, k).__code__)
-    return codes, [BT.run.__code__]
+class _Boom(Exception):
+    """what a failing monitor callback raises"""
 
 
-class RunM:
-    """One M scenario on the real code."""
+class RunBase:
+    """Common part of the three runners: scheduler, patches, the clock of effective steps."""
+    kind = '?'
 
     def __init__(self, case):
         self.case = case
+        self.clock = 0
+        self.hang = None
+        self.patches = S.Patches()
+        self.undo = []
+        codes = anchored_codes()[self.kind] if case.get('op') else ()
+        self.sched = self.s = S.Sched(op_codes=codes)
+
+    def on_write(self, obj, name, value):
+        return value
+
+    def activate(self):
+        S._cur[0] = self
+        self.s.install()
+
+    def close(self):
+        try:
+            self.s.kill_all()
+        finally:
+            self.s.uninstall()
+            S._cur[0] = None
+            self.patches.restore()
+            for fn in reversed(self.undo):
+                fn()
+
+    def runnable(self, tid):
+        return tid in self.s.recs and tid in self.s.runnable()
+
+    def step(self, tid):
+        """One effective turn of thread `tid`; False when it is not schedulable (a no-op turn)."""
+        if not self.runnable(tid):
+            return False
+        self.clock += 1
+        self.before_step(tid)
+        self.s.step(tid)
+        self.after_step(tid)
+        return True
+
+    def before_step(self, tid):
+        pass
+
+    def after_step(self, tid):
+        pass
+
+    def model_tid(self, tid):
+        return tid
+
+
+class RunM(RunBase):
+    """One M scenario on the real code."""
+    kind = 'M'
+
+    def __init__(self, case):
+        RunBase.__init__(self, case)
         plugins, wspbus = _plugins()
         self.plugins = plugins
-        self.saved_time = plugins.time
-        plugins.time = _Clock()
+        self.patches.shared_attr(plugins.BackgroundTask, 'running')
+        self.patches.shared_attr(plugins.Monitor, 'thread')
+        saved_time = plugins.time
+        plugins.time = _Clock(saved_time)
+        self.undo.append(lambda: setattr(plugins, 'time', saved_time))
         self.bus = wspbus.Bus()
-        self.clock = 0
         self.journal = []          # (time, worker tid)
         self.rets = []             # (call index, call, begin time, return time)
         self.wstart = {}           # worker tid -> time it was started
+        self.workers = []          # task objects in the order they were stored into Monitor.thread
+        self.raises = set(case.get('boom') or ())      # numbers (1-based, global) of the invocations that raise
+        self.ncb = 0
         if case.get('ar'):
             # the Autoreloader, as far as it is a Monitor: it watches no file (match nothing), its
             # own run() is called behind the journalling probe
@@ -175,57 +286,66 @@ class RunM:
             self.mon.callback = lambda: (self._cb(), poll())
         else:
             self.mon = plugins.Monitor(self.bus, self._cb, frequency=(1 if case['freq'] else 0), name='m')
-        codes, entry = _bt_codes(plugins)
-        if case.get('ar'):
-            codes.append(plugins.Autoreloader.start.__code__)
-        self.s = S.Sched(codes, entry, opcodes=bool(case.get('op')))
         if not case['daemon']:
             self.s.before_start = lambda thr: setattr(thr, 'daemon', False)
-        self.s.on_worker = lambda rec, thr: self.wstart.__setitem__(rec.tid, self.clock)
-        self.s.install()
+        self.s.on_worker = lambda rec, thr: self.wstart.__setitem__(rec.tid, self.tick())
+        self.seq = 0
+        self.activate()
         self.s.spawn('c', self._ctl)
-        self.s.step('c')           # to its first traced line (or to the end when there are no calls)
+
+    def on_write(self, obj, name, value):
+        if name == 'thread' and obj is self.mon and value is not None and \
+                not any(value is w for w in self.workers):
+            self.workers.append(value)
+        return value
+
+    def tick(self):
+        """logical time of the oracle: a counter of recorded events (worker started, call begins, call
+        returns, callback invoked); only one thread runs at a time, so the order is the real order"""
+        self.seq += 1
+        return self.seq
 
     def _cb(self):
-        if self.plugins.time.dead:
-            raise SystemExit(S.KILL)
-        me = self.s._me()
-        self.journal.append((self.clock, me.tid if me else '?'))
+        S.ypoint(('cb',))
+        me = self.s.me()
+        self.ncb += 1
+        self.journal.append((self.tick(), me.tid if me else '?'))
+        if self.ncb in self.raises:
+            raise _Boom('callback failure #%d' % self.ncb)
 
     def _ctl(self):
         for k, call in enumerate(self.case['calls']):
-            begin = self.clock
+            begin = self.tick()
             getattr(self.mon, call)()
-            self.rets.append((k, call, begin, self.clock))
+            self.rets.append((k, call, begin, self.tick()))
 
-    def close(self):
-        try:
-            self.plugins.time.dead = True
-            self.s.kill_all()
-        finally:
-            self.s.uninstall()
-            self.plugins.time = self.saved_time
+    def _widx(self, obj):
+        for i, w in enumerate(self.workers):
+            if w is obj:
+                return i
+        return None
 
-    def snapshot(self):
-        mon = self.mon
-        t = 'N' if mon.thread is None else ('1' if mon.thread.running else '0')
+    def model_tid(self, tid):
+        if tid == 'c':
+            return 'c'
+        i = self._widx(self.s.recs[tid].thread)
+        return 'w%d' % (i + 1) if i is not None else 'w99'
+
+    def obs(self):
+        cur = self.mon.__dict__.get('thread')
+        if cur is None:
+            t = 'N'
+        else:
+            i = self._widx(cur)
+            t = '?' if i is None else str(i)
         ws = []
-        for tid in self.s.order:
-            r = self.s.recs[tid]
-            if r.kind != 'worker':
-                continue
-            n = sum(1 for (_, w) in self.journal if w == tid)
-            ws.append('%s:%s:%d' % (_label(r), '1' if r.thread.running else '0', n))
+        for w in self.workers:
+            rec = self.s.find_thread(w)
+            n = sum(1 for (_, who) in self.journal if rec is not None and who == rec.tid)
+            ws.append('%d%d%d:%d' % (1 if rec is not None else 0, 1 if w.__dict__.get('running') else 0,
+                                     1 if (rec is not None and rec.done) else 0, n))
         crec = self.s.recs['c']
-        return 'C=%s;T=%s;R=%d;W=%s' % (_label(crec, lambda e: 'crashed'), t, len(self.rets),
-                                       '/'.join(ws) or '-')
-
-    def step(self, tid):
-        if tid not in self.s.recs or tid not in self.s.runnable():
-            return False
-        self.clock += 1
-        self.s.step(tid)
-        return True
+        return 'T=%s;R=%d;X=%d;W=%s' % (t, len(self.rets), 1 if crec.exc is not None else 0, '/'.join(ws))
 
 
 def oracle_M(case, run):
@@ -259,10 +379,10 @@ def oracle_M(case, run):
     if len(active) > 1:
         bad.append(('%d workers keep invoking the callback after the last call (%s) returned: %s'
                     % (len(active), last, active), 'M:two_active_workers'))
-    elif len(active) != want:
+    elif len(active) != want and not case.get('boom'):
+        # (a callback that raises kills its worker: then "exactly one" cannot be demanded)
         bad.append(('%d active worker(s) after the last call (%s) returned, expected %d'
                     % (len(active), last, want), 'M:wrong_worker_count_after_%s' % last))
-    # a stopped non-daemon worker has been joined: it is dead when stop() returns
     return bad
 
 
@@ -270,108 +390,166 @@ def tail_M(nworkers=4):
     # up to 4 calls, each of which may have to wait (join) for a non-daemon worker to run off
     t = []
     for _ in range(5):
-        t += ['c'] * 34
+        t += ['c'] * 30
         for w in range(1, nworkers + 1):
-            t += ['w%d' % w] * 16
+            t += ['w%d' % w] * 14
     return t
 
 
 # ----------------------------------------------------------------------------------------------
 # B: Bus.block / wait
 # ----------------------------------------------------------------------------------------------
-class RunB:
+class _Foreign(threading.Thread):
+    """A thread of the embedding application as `threading.enumerate()` shows it to block(): never
+    really started; `join()` is a blocking yield point; a turn of its schedule id finishes it."""
+
+    def __init__(self, run, fid, daemon):
+        threading.Thread.__init__(self, name='foreign-' + fid, daemon=bool(daemon))
+        self.fid = fid
+        self.done = False
+        self._c20run = run
+
+    def join(self, timeout=None):
+        self._c20run.joined.append(self.fid)
+        self._c20run.s.wait_for(self, ('join-foreign', self.fid))
+
+    def is_alive(self):
+        return not self.done
+
+
+class _ThreadingShim:
+    """`wspbus.threading`: enumerate() shows the threads the scenario declares."""
+
+    def __init__(self, real, run):
+        self._real = real
+        self._c20run = run
+
+    def __getattr__(self, name):
+        return getattr(self._real, name)
+
+    def enumerate(self):
+        S.ypoint(('enumerate',))
+        self._c20run.left_loop('enumerate')
+        me = self._real.current_thread()
+        out = [self._real.main_thread()]
+        x = self._c20run.s.recs.get('x')
+        for f in self._c20run.foreign[:1]:
+            out.append(f)
+        out.append(me)
+        if x is not None:
+            out.append(x.thread)
+        out += self._c20run.foreign[1:]
+        return [t for t in out if t is me or t is self._real.main_thread() or t.is_alive()]
+
+
+class RunB(RunBase):
+    kind = 'B'
+
     def __init__(self, case):
-        self.case = case
+        RunBase.__init__(self, case)
         plugins, wspbus = _plugins()
         self.wspbus = wspbus
-        self.saved = (wspbus.time, wspbus.os, wspbus.atexit)
-        wspbus.time = _Clock()
+        saved = (wspbus.time, wspbus.os, wspbus.atexit, wspbus.threading)
+        wspbus.time = _Clock(saved[0])
         wspbus.os = _OsShim(os)
         wspbus.atexit = _FakeAtexit
+        wspbus.threading = _ThreadingShim(saved[3], self)
+
+        def undo():
+            wspbus.time, wspbus.os, wspbus.atexit, wspbus.threading = saved
+        self.undo.append(undo)
+        self.patches.shared_attr(wspbus.Bus, 'state')
+        self.patches.shared_attr(wspbus.Bus, 'execv')
         self.bus = wspbus.Bus()
         self.names = {id(getattr(wspbus.states, n)): n for n in
                       ('STOPPED', 'STARTING', 'STARTED', 'STOPPING', 'EXITING')}
         self.pubs = 0
         self.execv_done = False
-        self.clock = 0
+        self.xrets = 0
+        self.joined = []
+        # foreign threads: 'n' non-daemon, 'd' daemon; ids f1, f2, ...
+        self.foreign = [_Foreign(self, 'f%d' % (i + 1), ch == 'd') for i, ch in enumerate(case.get('foreign', ''))]
         self.t_exiting = None      # time the bus first was EXITING
         self.t_left_wait = None
         self.state_when_left = None
+        self.left_by = None
         self.m_steps_after_exiting = 0
         self.bus.subscribe('main', self._main)
+        for ch in ('start', 'stop', 'exit', 'graceful'):
+            self.bus.subscribe(ch, (lambda c: lambda: S.ypoint(('listener', c)))(ch))
         self.bus._do_execv = self._execv
         self.bus.start()
-        B = wspbus.Bus
-        codes = [getattr(B, n).__code__ for n in ('wait', 'block', 'exit', 'restart', 'stop', 'start', 'graceful')]
-        self.s = S.Sched(codes, [], opcodes=bool(case.get('op')))
-        self.s.install()
-        self.s.spawn('m', self.bus.block)
+        self.activate()
+        self.s.spawn('m', self._m)
         self.s.spawn('x', self._x)
-        self.s.step('m')
-        self.s.step('x')
-        self.block_line0 = None
 
     def _main(self):
+        S.ypoint(('listener', 'main'))
         self.pubs += 1
 
     def _execv(self):
-        me = self.s._me()
+        S.ypoint(('execv',))
+        self.left_loop('execv')
+        me = self.s.me()
         self.execv_done = (me.tid if me else '?')
+
+    def left_loop(self, how):
+        """the main thread does something that block() does only after its polling loop"""
+        me = self.s.me()
+        if me is not None and me.tid == 'm' and self.t_left_wait is None:
+            self.t_left_wait = self.clock
+            self.state_when_left = self.state()
+            self.left_by = how
+
+    def _m(self):
+        self.bus.block()
+        self.left_loop('return')
 
     def _x(self):
         for call in self.case['calls']:
             getattr(self.bus, call)()
-
-    def close(self):
-        try:
-            self.wspbus.time.dead = True
-            self.s.kill_all()
-        finally:
-            self.s.uninstall()
-            self.wspbus.time, self.wspbus.os, self.wspbus.atexit = self.saved
+            self.xrets += 1
 
     def state(self):
-        return self.names.get(id(self.bus.state), repr(self.bus.state))
+        st = self.bus.__dict__.get('state')
+        return self.names.get(id(st), repr(st))
 
-    def _mlabel(self):
-        r = self.s.recs['m']
-        if r.done:
-            return 'done'
-        if r.at[0] == 'Bus.block' and r.at[1] > 11:
-            return 'tail'
-        return _label(r)
-
-    def snapshot(self):
-        x = self.s.recs['x']
-        xl = _label(x, lambda e: 'osexit' if isinstance(e, _ProcExit) else 'crashed')
-        return 'm=%s;x=%s;S=%s;X=%s;P=%d;D=%s' % (self._mlabel(), xl, self.state(),
-                                                  '1' if self.bus.execv else '0', self.pubs,
-                                                  '1' if self.execv_done else '0')
+    def runnable(self, tid):
+        if tid.startswith('f'):
+            return any(f.fid == tid and not f.done for f in self.foreign)
+        return RunBase.runnable(self, tid)
 
     def step(self, tid):
-        if tid not in self.s.recs or tid not in self.s.runnable():
+        if tid.startswith('f'):
+            for f in self.foreign:
+                if f.fid == tid and not f.done:
+                    self.clock += 1
+                    f.done = True
+                    return True
             return False
-        self.clock += 1
-        if tid == 'm':
-            if self.t_exiting is not None:
-                self.m_steps_after_exiting += 1
-            if self._mlabel() == 'tail':
-                n = 0
-                while not self.s.recs['m'].done:      # the tail of block() is one model step
-                    self.s.step('m')
-                    n += 1
-                    if n > 2000:
-                        raise common.HarnessError('block() tail does not terminate')
-            else:
-                self.s.step('m')
-                if self._mlabel() in ('tail', 'done') and self.t_left_wait is None:
-                    self.t_left_wait = self.clock
-                    self.state_when_left = self.state()
-        else:
-            self.s.step(tid)
-            if self.t_exiting is None and self.state() == 'EXITING':
-                self.t_exiting = self.clock
-        return True
+        return RunBase.step(self, tid)
+
+    def before_step(self, tid):
+        if tid == 'm' and self.t_exiting is not None:
+            self.m_steps_after_exiting += 1
+
+    def after_step(self, tid):
+        if self.t_exiting is None and self.state() == 'EXITING':
+            self.t_exiting = self.clock
+
+    def obs(self):
+        x = self.s.recs['x']
+        m = self.s.recs['m']
+        e = '0' if x.exc is None else ('1' if isinstance(x.exc, _ProcExit) else 'C')
+        o = 'S=%s;X=%d;P=%d;D=%d;M=%d;R=%d;E=%s' % (self.state(), 1 if self.bus.__dict__.get('execv') else 0,
+                                                    self.pubs, 1 if self.execv_done else 0,
+                                                    1 if (m.done and m.exc is None) else 0, self.xrets, e)
+        if self.foreign:
+            o += ';F=' + ''.join('%d' % (1 if f.done else 0) for f in self.foreign) + \
+                 ';J=' + (','.join(self.joined) or '-')
+        if m.exc is not None:
+            o += ';MX=1'
+        return o
 
 
 def oracle_B(case, run):
@@ -383,10 +561,12 @@ def oracle_B(case, run):
     if bad:
         return bad
     if run.t_left_wait is not None and run.state_when_left != 'EXITING':
-        bad.append(('block() left its wait loop in state %s (EXITING %s)'
-                    % (run.state_when_left, 'never reached' if run.t_exiting is None else 'reached'),
+        bad.append(('block() left its wait loop (%s) in state %s (EXITING %s)'
+                    % (run.left_by, run.state_when_left, 'never reached' if run.t_exiting is None else 'reached'),
                     'B:block_returns_without_EXITING'))
-    if run.t_exiting is not None and not m.done and run.m_steps_after_exiting >= (400 if case.get('op') else 8):
+    pending_foreign = [f.fid for f in run.foreign if not f.daemon and not f.done]
+    limit = (600 if case.get('op') else 14) + 3 * len(run.foreign)
+    if run.t_exiting is not None and not m.done and not pending_foreign and run.m_steps_after_exiting >= limit:
         bad.append(('the bus is EXITING and the main thread took %d more steps, but block() has not returned'
                     % run.m_steps_after_exiting, 'B:block_does_not_return'))
     if m.done:
@@ -400,37 +580,55 @@ def oracle_B(case, run):
     return bad
 
 
-def tail_B():
-    return ['x'] * 45 + ['m'] * 14
+def tail_B(case):
+    t = ['x'] * 40 + ['m'] * 16
+    for i in range(len(case.get('foreign', ''))):
+        t += ['f%d' % (i + 1)] + ['m'] * 6
+    return t
 
 
 # ----------------------------------------------------------------------------------------------
 # T: ThreadManager
 # ----------------------------------------------------------------------------------------------
-class RunT:
+class RunT(RunBase):
+    kind = 'T'
+
     def __init__(self, case):
-        self.case = case
+        RunBase.__init__(self, case)
         plugins, wspbus = _plugins()
+        self.patches.shared_attr(plugins.ThreadManager, 'threads', reads=False)
         self.bus = wspbus.Bus()
         self.tm = plugins.ThreadManager(self.bus)
+        self._wrap(self.tm)
         self.journal = []          # ('+'|'-', index, publisher tid)
         self.bus.subscribe('start_thread', lambda i: self._pub('+', i))
         self.bus.subscribe('stop_thread', lambda i: self._pub('-', i))
-        TM = plugins.ThreadManager
-        codes = [getattr(TM, n).__code__ for n in ('acquire_thread', 'release_thread', 'stop')]
-        self.s = S.Sched(codes, [], opcodes=bool(case.get('op')))
-        self.s.install()
         self.ident = {}
         self.n = len(case['scripts'])
+        self.rrets = [0] * self.n
+        self.srets = 0
+        self.activate()
         for k, ops in enumerate(case['scripts']):
             self.s.spawn('t%d' % (k + 1), self._req(k, ops))
         self.s.spawn('s', self._stopper)
-        for k in range(self.n):
-            self.s.step('t%d' % (k + 1))
-        self.s.step('s')
+
+    def _wrap(self, tm):
+        cur = tm.__dict__.get('threads')
+        if isinstance(cur, dict) and not isinstance(cur, S.SharedDict):
+            d = S.SharedDict()
+            dict.update(d, cur)
+            tm.__dict__['threads'] = d
+
+    def on_write(self, obj, name, value):
+        if name == 'threads' and type(value) is dict:
+            d = S.SharedDict()
+            dict.update(d, value)
+            return d
+        return value
 
     def _pub(self, kind, i):
-        me = self.s._me()
+        S.ypoint(('listener', kind))
+        me = self.s.me()
         self.journal.append((kind, i, me.tid if me else '?'))
 
     def _req(self, k, ops):
@@ -441,36 +639,29 @@ class RunT:
                     self.tm.acquire_thread()
                 else:
                     self.tm.release_thread()
+                self.rrets[k] += 1
         return body
 
     def _stopper(self):
         for _ in range(self.case['nstops']):
             self.tm.stop()
+            self.srets += 1
 
-    def close(self):
-        try:
-            self.s.kill_all()
-        finally:
-            self.s.uninstall()
+    def registry(self):
+        d = self.tm.__dict__.get('threads')
+        return list(dict.items(d)) if isinstance(d, dict) else []
 
-    def snapshot(self):
-        def crashed(e):
-            return 'rterr' if isinstance(e, RuntimeError) else 'crashed'
-        rs = [_label(self.s.recs['t%d' % (k + 1)], crashed) for k in range(self.n)]
-        # threads register their ident when they first run; idents of threads that have not run yet
-        # cannot be in the dict
-        d = ['%s:%s' % (self.ident.get(k, '?'), v) for k, v in list(self.tm.threads.items())]
-        return 's=%s;r=%s;D=%s;J=%d' % (_label(self.s.recs['s'], crashed), ','.join(rs) or '-',
-                                        ','.join(d) or '-', len(self.journal))
-
-    def final(self):
-        return ','.join('%s%s@%s' % e for e in self.journal) or '-'
-
-    def step(self, tid):
-        if tid not in self.s.recs or tid not in self.s.runnable():
-            return False
-        self.s.step(tid)
-        return True
+    def obs(self):
+        d = ['%s:%s' % (self.ident.get(k, '?'), v) for k, v in self.registry()]
+        j = ['%s%s@%s' % e for e in self.journal]
+        srec = self.s.recs['s']
+        e = '0' if srec.exc is None else ('1' if isinstance(srec.exc, RuntimeError) else 'C')
+        o = 'D=%s;J=%s;r=%s;s=%d;E=%s' % (','.join(d) or '-', ','.join(j) or '-',
+                                         ','.join(str(n) for n in self.rrets) or '-', self.srets, e)
+        dead = [tid for tid, r in self.s.recs.items() if tid != 's' and r.exc is not None]
+        if dead:
+            o += ';RX=' + ','.join(sorted(dead))
+        return o
 
 
 def oracle_T(case, run):
@@ -488,7 +679,7 @@ def oracle_T(case, run):
     for kind, i, _who in run.journal:
         idx.setdefault(i, [0, 0])[0 if kind == '+' else 1] += 1
     held = {}
-    for v in run.tm.threads.values():
+    for _k, v in run.registry():
         held[v] = held.get(v, 0) + 1
     for i in sorted(set(idx) | set(held), key=repr):
         st, sp = idx.get(i, [0, 0])
@@ -541,26 +732,32 @@ def modes():
     if _modes:
         return _modes
     # M: is the task armed when Monitor.start() has returned and the worker has not run yet?
-    r = RunM({'k': 'M', 'freq': 1, 'daemon': 1, 'calls': ['start'], 'sched': []})
+    _modes['M'] = 'fixed'
     try:
-        n = 0
-        while not r.s.recs['c'].done and n < 60:
-            r.step('c')
-            n += 1
-        _modes['M'] = 'asIs' if (r.mon.thread is not None and not r.mon.thread.running
-                                 and 'w1' in r.s.recs) else 'fixed'
-    finally:
-        r.close()
+        r = RunM({'k': 'M', 'freq': 1, 'daemon': 1, 'calls': ['start'], 'sched': []})
+        try:
+            n = 0
+            while not r.s.recs['c'].done and n < 60:
+                if not r.step('c'):
+                    break
+                n += 1
+            w = r.workers[0] if r.workers else None
+            if w is not None and r.s.find_thread(w) is not None and not w.__dict__.get('running'):
+                _modes['M'] = 'asIs'
+        finally:
+            r.close()
+    except (S.Hang, S.SchedError, Exception):     # noqa - a broken start() is the oracle's business
+        pass
     # T: is the entry already removed when stop() publishes stop_thread?
     plugins, wspbus = _plugins()
-    bus = wspbus.Bus()
-    tm = plugins.ThreadManager(bus)
     seen = []
-    bus.subscribe('stop_thread', lambda i: seen.append(len(tm.threads)))
     try:
+        bus = wspbus.Bus()
+        tm = plugins.ThreadManager(bus)
+        bus.subscribe('stop_thread', lambda i: seen.append(len(tm.threads)))
         tm.acquire_thread()
         tm.stop()
-    except Exception:           # a broken stop() is the oracle's business, not the detector's
+    except Exception:           # noqa - a broken stop() is the oracle's business, not the detector's
         seen = [0]
     _modes['T'] = 'asIs' if seen == [1] else 'fixed'
     return _modes
@@ -568,29 +765,41 @@ def modes():
 
 def full_sched(case):
     """The case's schedule followed by the completion tail (every thread gets enough turns to finish
-    its calls; turns of threads that are not schedulable are no-ops on both sides)."""
+    its calls; turns of threads that are not schedulable are no-ops)."""
     k = case['k']
-    tail = tail_M() if k == 'M' else tail_B() if k == 'B' else tail_T(len(case['scripts']))
+    tail = tail_M() if k == 'M' else tail_B(case) if k == 'B' else tail_T(len(case['scripts']))
     if case.get('op'):
-        tail = [t for t in tail for _ in range(14)]     # bytecode steps are much finer than lines
+        tail = [t for t in tail for _ in range(40)]     # bytecode steps are much finer than accesses
     return list(case['sched']) + tail
 
 
-def model_line(case):
-    if case.get('op') or case.get('ar'):
-        return 'oracle-only ' + json.dumps(case, sort_keys=True)
+def scenario_key(case):
     k = case['k']
-    sched = ','.join(full_sched(case)) or '-'
     if k == 'M':
-        return 'M %s %d %d %s %s' % (modes()['M'], case['freq'], case['daemon'], ','.join(case['calls']) or '-', sched)
+        return 'M %d %d %s %s%s%s' % (case['freq'], case['daemon'], ','.join(case['calls']) or '-',
+                                      'ar ' if case.get('ar') else '', 'op ' if case.get('op') else '',
+                                      'boom=%s' % (case.get('boom'),) if case.get('boom') else '')
     if k == 'B':
-        return 'B %s %s' % (','.join(case['calls']) or '-', sched)
-    return 'T %s %d %s %s' % (modes()['T'], case['nstops'], '/'.join(case['scripts']) or '-', sched)
+        return 'B %s %s%s' % (','.join(case['calls']) or '-', case.get('foreign', ''), ' op' if case.get('op') else '')
+    return 'T %d %s%s' % (case['nstops'], '/'.join(case['scripts']) or '-', ' op' if case.get('op') else '')
+
+
+def model_line(case, trace):
+    k = case['k']
+    if k == 'M':
+        return 'AM %s %d %d %s %s' % (modes()['M'], case['freq'], case['daemon'], ','.join(case['calls']) or '-', trace)
+    if k == 'B':
+        return 'AB %s %s' % (','.join(case['calls']) or '-', trace)
+    return 'AT %s %d %s %s' % (modes()['T'], case['nstops'], '/'.join(case['scripts']) or '-', trace)
 
 
 def comparable(case):
-    if case.get('op') or case.get('ar'):
-        return False            # bytecode-granular runs and Autoreloader runs: oracle only
+    if case.get('op'):
+        return False            # bytecode-granular runs: oracle only
+    if case['k'] == 'M' and case.get('boom'):
+        return MODEL_HAS.get('boom', False)
+    if case['k'] == 'B' and case.get('foreign'):
+        return MODEL_HAS.get('foreign', False)
     if case['k'] == 'T':
         if any(not ops for ops in case['scripts']):
             return False
@@ -599,40 +808,58 @@ def comparable(case):
     return True
 
 
+MODEL_HAS = {}
+
+
 def execute(case):
-    """Run one case on the real threads.  Returns (snapshots, oracle failures, schedule, #threads that ran)."""
-    run = RUNNERS[case['k']](case)
+    """Run one case on the real threads.
+    Returns (trace, oracle failures, #threads that ran, labels of the executed accesses)."""
     try:
-        if case.get('op'):
-            for tid in full_sched(case):
+        run = RUNNERS[case['k']](case)
+    except S.SchedError as e:
+        raise common.HarnessError('scheduler: %s (case %s)' % (e, json.dumps(case)[:400]))
+    labels = []
+    try:
+        last = run.obs()
+        items = ['~' + last]
+        hang = None
+        for tid in full_sched(case):
+            if not run.runnable(tid):
+                continue
+            mt = run.model_tid(tid)
+            lab = None if tid.startswith('f') else run.s.recs[tid].pending
+            try:
                 run.step(tid)
-            out = ''
+            except S.Hang as e:
+                hang = e
+                break
+            o = run.obs()
+            labels.append((tid, lab))
+            if o == last:
+                items.append(mt)
+            else:
+                items.append(mt + '~' + o)
+                last = o
+        if hang is not None:
+            bad = [('the code under test hangs: %s (all blocking primitives are virtual, so this is a livelock '
+                    'or a real blocking call inside the anchored code)' % hang, '%s:hang' % case['k'])]
         else:
-            snaps = ['+' + run.snapshot()]
-            for tid in full_sched(case):
-                ok = run.step(tid)
-                snaps.append(('+' if ok else '-') + run.snapshot())
-            out = '|'.join(snaps)
-            if case['k'] == 'T':
-                out += '#' + run.final()
-        bad = ORACLES[case['k']](case, run)
-        return out, bad, full_sched(case), sum(1 for r in run.s.recs.values() if r.steps > 1)
+            bad = ORACLES[case['k']](case, run)
+        nthreads = sum(1 for r in run.s.recs.values() if r.steps > 1)
+        return '|'.join(items), bad, nthreads, labels
     except S.SchedError as e:
         raise common.HarnessError('scheduler: %s (case %s)' % (e, json.dumps(case)[:400]))
     finally:
         run.close()
 
 
-def first_diff(a, b):
-    xa, xb = a.split('|'), b.split('|')
-    for i, (p, q) in enumerate(zip(xa, xb)):
-        if p != q:
-            return 'step %d: impl %s / model %s' % (i, p, q)
-    return 'length %d vs %d' % (len(xa), len(xb))
-
-
 def _exec_chunk(chunk):
-    return [execute(c) for c in chunk]
+    coverage_on()
+    out = []
+    for c in chunk:
+        tr, bad, n, _labels = execute(c)
+        out.append((tr, bad, n))
+    return out, sorted(_cov['seen'])
 
 
 def _pmap(fn, args):
@@ -650,57 +877,98 @@ def _pmap(fn, args):
         raise common.HarnessError('a case-execution worker process died: %r' % (e,))
 
 
+def _model_parallel(ctx, lines):
+    """the admission test is CPU-bound in the Lean driver: several driver processes side by side"""
+    if not lines:
+        return []
+    if ctx.model(lines[:1]) is None:
+        return None
+    n = max(1, min(PROCS, len(lines) // 50))
+    if n == 1:
+        return ctx.model(lines)
+    from concurrent.futures import ThreadPoolExecutor
+    size = (len(lines) + n - 1) // n
+    parts = [lines[i:i + size] for i in range(0, len(lines), size)]
+    with ThreadPoolExecutor(max_workers=n) as ex:
+        res = list(ex.map(ctx.model, parts))
+    return [x for part in res for x in part]
+
+
+COVERED = set()
+
+
 def check_cases(ctx, cases, compare=True):
     done = []
     cases = list(cases)
     modes()
     chunks = [cases[i:i + 25] for i in range(0, len(cases), 25)]
-    results = [r for rs in _pmap(_exec_chunk, chunks) for r in rs]
-    for case, (out, bad, sched, nthreads) in zip(cases, results):
-        key = model_line(case)
+    results = []
+    for rs, cov in _pmap(_exec_chunk, chunks):
+        results += rs
+        COVERED.update(tuple(x) for x in cov)
+    for case, (trace, bad, nthreads) in zip(cases, results):
+        key = scenario_key(case) + ' ' + ','.join(case['sched'])
         ctx.case(case, nontrivial=nthreads >= 2, key=key)
         ctx.count('scenario:' + case['k'] + ('/bytecode' if case.get('op') else '') + ('/Autoreloader' if case.get('ar') else ''))
-        ctx.count('%s:steps<=%d' % (case['k'], 20 * (1 + len(sched) // 20)))
+        ctx.count('%s:turns<=%d' % (case['k'], 20 * (1 + trace.count('|') // 20)))
         if case['k'] == 'M':
             ctx.count('M:calls=' + ','.join(case['calls']))
-            ctx.count('M:daemon=%d,freq=%d' % (case['daemon'], case['freq']))
+            ctx.count('M:daemon=%d,freq=%d%s' % (case['daemon'], case['freq'], ',raising' if case.get('boom') else ''))
         elif case['k'] == 'B':
-            ctx.count('B:calls=' + ','.join(case['calls']))
+            ctx.count('B:calls=' + ','.join(case['calls']) + (' foreign=' + case['foreign'] if case.get('foreign') else ''))
         else:
             ctx.count('T:threads=%d,stops=%d' % (len(case['scripts']), case['nstops']))
         for what, sig in bad:
             ctx.count('oracle:' + sig)
             ctx.oracle_fail(case, what, sig)
-        done.append((case, out, bool(bad)))
+        done.append((case, trace, bool(bad)))
     if compare:
-        comp = [(c, o) for (c, o, _b) in done if comparable(c)]
-        lines = ctx.model([model_line(c) for c, _ in comp])
-        if lines is not None:
-            for (c, o), m in zip(comp, lines):
+        comp = [(c, t) for (c, t, _b) in done if comparable(c)]
+        answers = _model_parallel(ctx, [model_line(c, t) for c, t in comp])
+        if answers is not None:
+            for (c, t), a in zip(comp, answers):
                 ctx.compared()
-                if o != m:
-                    ctx.disagree(c, o[-600:], m[-600:], 'step snapshots differ (%s)' % first_diff(o, m))
+                if a != 'ok':
+                    ctx.count('not-admitted:' + c['k'])
+                    ctx.disagree(c, _tail_of(t, a), a,
+                                 'the model does not admit the observable trace of the real threads (%s)' % a[:160])
+
+
+def _tail_of(trace, answer):
+    """the turns around the one the model could not follow"""
+    items = trace.split('|')
+    parts = answer.split()
+    try:
+        i = int(parts[1]) + 1
+    except (IndexError, ValueError):
+        i = 0
+    obs = ''
+    for it in items[:max(i - 1, 0) + 1]:
+        if '~' in it:
+            obs = it.split('~', 1)[1]
+    return 'before: %s / turns %d..: %s' % (obs, max(i - 1, 0), ' | '.join(items[max(i - 1, 1):i + 3]))
 
 
 # ----------------------------------------------------------------------------------------------
-# generators
+# generators (a schedule step = one shared-state access / primitive call of that thread)
 # ----------------------------------------------------------------------------------------------
 M_SEQS = [['start'], ['start', 'stop'], ['start', 'stop', 'graceful'], ['start', 'stop', 'graceful', 'start'],
           ['start', 'graceful'], ['start', 'graceful', 'stop'], ['graceful'], ['stop'], ['start', 'start', 'stop'],
           ['start', 'stop', 'start'], ['start', 'stop', 'stop', 'start'], ['graceful', 'graceful']]
+MAIN_SEQ = ['start', 'stop', 'graceful', 'start']
 
 
-def gen_M_systematic(calls, freq, daemon, points_a, points_b):
+def gen_M_systematic(calls, freq, daemon, points_a, points_b, **extra):
     """controller runs a steps, then the workers get b steps each, then everything completes"""
     for a in points_a:
         for b in points_b:
             sched = ['c'] * a + ['w1'] * b + ['w2'] * b
-            yield {'k': 'M', 'freq': freq, 'daemon': daemon, 'calls': calls, 'sched': sched}
+            yield dict({'k': 'M', 'freq': freq, 'daemon': daemon, 'calls': calls, 'sched': sched}, **extra)
 
 
 def gen_M_two(calls, freq, daemon, rng, n):
     for _ in range(n):
-        a1, b1, a2, b2 = rng.randint(0, 30), rng.randint(0, 14), rng.randint(1, 20), rng.randint(0, 14)
+        a1, b1, a2, b2 = rng.randint(0, 26), rng.randint(0, 10), rng.randint(1, 16), rng.randint(0, 10)
         w = rng.choice(['w1', 'w2'])
         sched = ['c'] * a1 + ['w1'] * b1 + ['c'] * a2 + [w] * b2
         yield {'k': 'M', 'freq': freq, 'daemon': daemon, 'calls': calls, 'sched': sched}
@@ -710,10 +978,13 @@ B_SEQS = [['exit'], ['restart'], ['stop', 'exit'], ['stop', 'start', 'exit'], ['
           ['stop'], ['stop', 'start'], [], ['stop', 'restart'], ['graceful', 'stop', 'start', 'exit']]
 
 
-def gen_B_systematic(calls, points_m, points_x):
+def gen_B_systematic(calls, points_m, points_x, foreign=''):
     for a in points_m:
         for b in points_x:
-            yield {'k': 'B', 'calls': calls, 'sched': ['m'] * a + ['x'] * b + ['m'] * 7}
+            case = {'k': 'B', 'calls': calls, 'sched': ['m'] * a + ['x'] * b + ['m'] * 7}
+            if foreign:
+                case['foreign'] = foreign
+            yield case
 
 
 T_SCRIPTS = [['ar', 'ar'], ['ar'], ['aar', 'ar'], ['ara', 'ar'], ['ar', 'ar', 'ar'], ['arar', 'a'],
@@ -723,8 +994,8 @@ T_SCRIPTS = [['ar', 'ar'], ['ar'], ['aar', 'ar'], ['ara', 'ar'], ['ar', 'ar', 'a
 def gen_T_systematic(scripts, nstops, pts, quick=True):
     n = len(scripts)
     for a in pts:
-        for b in ((0, 1, 2, 3, 5) if quick else range(0, 9)):
-            for c in ((0, 2, 3, 4) if quick else range(0, 7)):
+        for b in ((0, 1, 2, 3, 4, 6) if quick else range(0, 9)):
+            for c in ((0, 1, 2, 3) if quick else range(0, 7)):
                 sched = []
                 for k in range(n):
                     sched += ['t%d' % (k + 1)] * a
@@ -748,12 +1019,14 @@ def gen_random(ctx, kind, n):
         if kind == 'M':
             calls = rng.choice(M_SEQS) if rng.random() < 0.6 else \
                 [rng.choice(['start', 'stop', 'graceful']) for _ in range(rng.randint(1, 4))]
-            pre = rand_sched(rng, ['c', 'c', 'w1', 'w1', 'w2'], rng.randint(5, 90))
+            pre = rand_sched(rng, ['c', 'c', 'w1', 'w1', 'w2'], rng.randint(5, 70))
             case = {'k': 'M', 'freq': 0 if rng.random() < 0.08 else 1, 'daemon': 0 if rng.random() < 0.3 else 1,
                     'calls': calls, 'sched': pre}
+            if rng.random() < 0.15:
+                case['ar'] = 1
         elif kind == 'B':
             case = {'k': 'B', 'calls': rng.choice(B_SEQS),
-                    'sched': rand_sched(rng, ['m', 'x'], rng.randint(3, 60))}
+                    'sched': rand_sched(rng, ['m', 'x'], rng.randint(3, 40))}
         else:
             nthreads = rng.randint(2, 4)
             scripts = [rng.choice(['ar', 'ar', 'a', 'aar', 'ara', 'arar', 'r']) for _ in range(nthreads)]
@@ -762,33 +1035,34 @@ def gen_random(ctx, kind, n):
                     scripts.pop()
             names = ['s', 's'] + ['t%d' % (k + 1) for k in range(len(scripts))]
             case = {'k': 'T', 'nstops': rng.choice([0, 1, 1, 1, 2]), 'scripts': scripts,
-                    'sched': rand_sched(rng, names, rng.randint(4, 70))}
+                    'sched': rand_sched(rng, names, rng.randint(4, 60))}
         out.append(case)
     return out
 
 
 def gen_opcode(ctx, n):
-    """bytecode-granular schedules (oracle only): random bursts, 10x longer than the line-granular ones"""
+    """bytecode-granular schedules (oracle only): random bursts, much longer than the access-granular ones"""
     out = []
     for kind in ('M', 'B', 'T'):
         for case in gen_random(ctx, kind, n):
             case = dict(case, op=1)
+            case.pop('ar', None)
             names = sorted(set(case['sched'])) or ['c']
-            case['sched'] = rand_sched(ctx.rng, names + names[:1], ctx.rng.randint(20, 700))
+            case['sched'] = rand_sched(ctx.rng, names + names[:1], ctx.rng.randint(20, 900))
             out.append(case)
     return out
 
 
 def witness_cases():
-    """Model-derived schedules: the Lean witnesses of the *_asIs_false theorems and neighbours."""
+    """Model-derived schedules: the Lean witnesses of the *_asIs_false theorems and neighbours (the
+    controller finishes start();stop() before the worker's first instruction, ...)."""
     cs = []
-    for calls, pre in ((['start', 'stop'], 17), (['start', 'stop', 'start'], 17), (['start', 'graceful'], 28),
-                       (['start', 'stop', 'graceful', 'start'], 17)):
+    for calls, pre in ((['start', 'stop'], 15), (['start', 'stop', 'start'], 15), (['start', 'graceful'], 22),
+                       (MAIN_SEQ, 15)):
         for daemon in (1, 0):
-            cs.append({'k': 'M', 'freq': 1, 'daemon': daemon, 'calls': calls,
-                       'sched': ['c'] * pre + ['w1'] * 2})
-            cs.append({'k': 'M', 'freq': 1, 'daemon': daemon, 'calls': calls,
-                       'sched': ['c'] * (pre + 2)})
+            for d in (-1, 0, 1, 2):
+                cs.append({'k': 'M', 'freq': 1, 'daemon': daemon, 'calls': calls,
+                           'sched': ['c'] * (pre + d) + ['w1'] * 2})
     cs.append({'k': 'T', 'nstops': 1, 'scripts': ['ar', 'ar'],
                'sched': ['t1'] * 5 + ['t2'] * 5 + ['s'] * 2 + ['t1'] * 4})
     cs.append({'k': 'T', 'nstops': 1, 'scripts': ['ar', 'a'],
@@ -815,30 +1089,29 @@ def all_cases(ctx):
     cases += corpus_cases()
     cases += witness_cases()
     # M: the controller's calls issued at every point of the worker's life (incl. before its first
-    # instruction) and the worker let loose at every line of the controller
-    pa = range(0, 46) if quick else range(0, 60)
-    pb = (0, 1, 2, 3, 4, 5, 6, 7, 8, 13) if quick else range(0, 15)
-    main_seq = ['start', 'stop', 'graceful', 'start']
-    cases += list(gen_M_systematic(main_seq, 1, 1, pa, pb))
-    cases += list(gen_M_systematic(main_seq, 1, 0, pa, (0, 2, 6) if quick else pb))
+    # instruction) and the worker let loose at every access of the controller
+    pa = range(0, 30) if quick else range(0, 34)
+    pb = (0, 1, 2, 3, 4, 5, 6, 7, 9) if quick else range(0, 12)
+    cases += list(gen_M_systematic(MAIN_SEQ, 1, 1, pa, pb))
+    cases += list(gen_M_systematic(MAIN_SEQ, 1, 0, pa, (0, 1, 2, 5) if quick else pb))
     for calls in M_SEQS:
-        if calls != main_seq:
-            cases += list(gen_M_systematic(calls, 1, 1, range(0, 30, 3 if quick else 1), (0, 2, 7)))
+        if calls != MAIN_SEQ:
+            cases += list(gen_M_systematic(calls, 1, 1, range(0, 22, 2 if quick else 1), (0, 2, 5)))
     cases += list(gen_M_systematic(['start', 'stop'], 0, 1, (0, 3), (0,)))
     for daemon in (1, 0):
-        for c in gen_M_systematic(main_seq, 1, daemon, range(0, 56, 2 if quick else 1), (0, 2, 6)):
-            cases.append(dict(c, ar=1))
-    for calls in (main_seq, ['start', 'graceful', 'stop'], ['start', 'stop', 'start']):
+        cases += list(gen_M_systematic(MAIN_SEQ, 1, daemon, range(0, 34, 2 if quick else 1), (0, 2, 5), ar=1))
+    for calls in (MAIN_SEQ, ['start', 'graceful', 'stop'], ['start', 'stop', 'start']):
         cases += list(gen_M_two(calls, 1, ctx.rng.choice([0, 1]), ctx.rng, 40 if quick else 1500))
     # B
     for calls in B_SEQS:
-        cases += list(gen_B_systematic(calls, (0, 3, 5, 7) if quick else range(0, 9), range(0, 34, 3 if quick else 1)))
+        cases += list(gen_B_systematic(calls, (0, 1, 2, 3, 4) if quick else range(0, 8),
+                                       range(0, 22, 2 if quick else 1)))
     # T
     for scripts in T_SCRIPTS:
         if modes()['T'] == 'asIs' and sum(s.count('a') for s in scripts) > 5:
             continue
         for nstops in (1, 2) if not quick else (1,):
-            cases += list(gen_T_systematic(scripts, nstops, (0, 4, 5, 6) if quick else range(0, 11), quick))
+            cases += list(gen_T_systematic(scripts, nstops, (0, 2, 3, 4, 5) if quick else range(0, 9), quick))
         cases.append({'k': 'T', 'nstops': 0, 'scripts': scripts, 'sched': []})
     return cases
 
@@ -847,26 +1120,28 @@ def run(ctx):
     ctx.extra['protocol_detected'] = dict(modes())
     ctx.note('live tree implements: BackgroundTask %(M)s, ThreadManager.stop %(T)s' % modes())
     check_cases(ctx, all_cases(ctx))
-    n = ctx.budget(450, 5000)
+    n = ctx.budget(400, 5000)
     for kind in ('M', 'B', 'T'):
         check_cases(ctx, gen_random(ctx, kind, n))
-    ops = gen_opcode(ctx, ctx.budget(60, 1500))
+    ops = gen_opcode(ctx, ctx.budget(50, 1200))
     check_cases(ctx, ops)
     ctx.extra['bytecode_granular_oracle_only_cases'] = len(ops)
     if not ctx.quick():
         check_cases(ctx, list(thorough_two_preemptions(ctx)))
+    missing = sorted(coverage_all_lines() - COVERED)
+    ctx.extra['anchored_lines_not_executed'] = ['%s+%d' % x for x in missing]
+    ctx.extra['anchored_lines_total'] = len(coverage_all_lines())
 
 
 def thorough_two_preemptions(ctx):
     """all schedules of controller x first worker with <= 2 pre-emptions over the statement's sequence"""
-    calls = ['start', 'stop', 'graceful', 'start']
-    for a1 in range(0, 46):
-        for b1 in range(0, 9):
-            for a2 in range(1, 30, 2):
-                for b2 in (1, 3, 6):
-                    yield {'k': 'M', 'freq': 1, 'daemon': 1, 'calls': calls,
+    for a1 in range(0, 30):
+        for b1 in range(0, 8):
+            for a2 in range(1, 22, 2):
+                for b2 in (1, 3, 5):
+                    yield {'k': 'M', 'freq': 1, 'daemon': 1, 'calls': MAIN_SEQ,
                            'sched': ['c'] * a1 + ['w1'] * b1 + ['c'] * a2 + ['w1'] * b2}
-    ctx.extra['two_preemption_schedules'] = 46 * 9 * 15 * 3
+    ctx.extra['two_preemption_schedules'] = 30 * 8 * 11 * 3
 
 
 def search(ctx, around=None):
@@ -874,32 +1149,43 @@ def search(ctx, around=None):
         check_cases(ctx, gen_random(ctx, kind, 1500), compare=False)
 
 
-def _show(stream, limit=90):
-    body = stream.split('#')[0]
-    steps = [x for x in body.split('|') if x.startswith('+')]
-    for x in steps[:limit]:
-        print('     ' + x)
-    if len(steps) > limit:
-        print('     ... %d more effective steps' % (len(steps) - limit))
-    if '#' in stream:
-        print('     journal: ' + stream.split('#', 1)[1])
-
-
 def replay(ctx, case):
-    """Re-run one case on the current tree; print the effective steps of both sides."""
+    """Re-run one case on the current tree; print every effective turn (thread, access executed,
+    observation when it changed) and the model's verdict on the trace."""
     print('protocol of the live tree:', modes())
     print('case   :', json.dumps(case)[:3000])
-    out, bad, sched, _n = execute(case)
-    if out:
-        print('impl (snapshot after every effective step):')
-        _show(out)
+    trace, bad, _n, labels = execute(case)
+    items = trace.split('|')
+    print('impl (one line per effective turn: thread, access executed, observation if changed):')
+    print('     init  %s' % items[0][1:])
+    for i, ((tid, lab), it) in enumerate(zip(labels, items[1:])):
+        if i >= 160:
+            print('     ... %d more turns' % (len(labels) - i))
+            break
+        print('     %3d %-3s %-22s %s' % (i, tid, ' '.join(str(x) for x in (lab or ())), it.split('~', 1)[1] if '~' in it else ''))
     if comparable(case):
-        m = ctx.model([model_line(case)])
+        m = ctx.model([model_line(case, trace)])
         if m:
-            if m[0] != out:
-                print('model differs; first difference:', first_diff(out, m[0]))
-                print('model:')
-                _show(m[0])
-            else:
-                print('model  : identical snapshot stream (%d steps)' % len(out.split('|')))
+            print('model  :', 'admits this trace' if m[0] == 'ok' else 'does NOT admit this trace: ' + m[0][:600])
     check_cases(ctx, [case])
+
+
+LEVEL_TEXT = ('proof (partial). Proved in Lean, for EVERY schedule, every controller call sequence and any number of '
+              'threads, over interleaving models of the repaired code: at most one armed worker per monitor; once '
+              'stop() has returned the cancelled worker invokes the callback at most once more and then never again; '
+              'start/graceful leave exactly one armed live worker and stop none; stop() joins a non-daemon worker; '
+              'EXITING is stable, block() returns within 5 own steps of the main thread once the bus is EXITING, never '
+              'earlier, and execv happens iff restart() was called; start_thread/stop_thread obey a conservation law '
+              'that gives exactly one stop_thread per start_thread at quiescence and stop() never raises. The pre-fix '
+              'protocols (worker arms itself; stop() iterates the live dict) are proved FALSE by witness schedules and '
+              'true under explicit side conditions. Tie to the code: real threads are driven at shared-state accesses '
+              'and primitive calls (no source lines involved); the Lean driver decides for every recorded trace whether '
+              'the model admits it (trace inclusion modulo stuttering, subset construction); the construction is '
+              'proved sound (an admitted trace is a sampling of a model run, so it inherits every safety theorem: '
+              'C20_admitted_*_safe). Partial: the theorems are about the models; bytecode atomicity and real-time '
+              'sleeping are outside the models.')
+LEVEL_NOTE = ('Trusted: Lean kernel (propext, Classical.choice, Quot.sound only); the hand models CpModel/Monitor.lean, '
+              'BlockWait.lean, ThreadMgr.lean as validated on this run by trace inclusion of the real threads\' '
+              'observable traces under harness/c20_sched.py; CPython switching threads only between bytecodes with '
+              'atomic attribute/dict operations; the instrumented attributes/primitives are the only shared state of '
+              'the anchored code; controller calls on one monitor do not overlap; bus listeners do not raise.')
